@@ -22,13 +22,16 @@ interrupts do not move it; fault-free iterations never touch it; outside the bac
 is exactly an iteration of the loop without any back-off state, and even inside the window the loop pops, dispatches
 and reschedules exactly what that loop would.
 
-A queue that reports a size but has no head (`Size() > 0`, `Head()`/`Pop()` = `ErrQueueEmpty`) is not an error for
-the loop, so the back-off state does not apply; `calculateNextTick` arms `RetryInterval` in that case
-(`C15_no_spin_on_spurious_empty`).
+A queue that reports a size (and perhaps a due head) but has nothing to pop: `fetchAndReschedule` asks `Size()` again
+under the queue lock and returns the empty `Pop()` like any other failed `Pop()` unless the answer is 0, so the
+back-off applies (`C15_no_spin_on_empty_pop`) — but not to an honestly empty queue (`C15_honest_empty_pop`) — and
+`calculateNextTick` arms `RetryInterval` when `Head()` answers `ErrQueueEmpty` (`C15_no_spin_on_spurious_empty`).
 
 Negative controls: the loop without back-off state spins (`C15_backoff_fails_without_flag`); the loop with a `failed`
 flag (the first repair) is starved by interrupts (`C15_interrupts_postpone_recovery`); `calculateNextTick` returning
-the zero duration on `ErrQueueEmpty` spins on such a queue (`C15_spurious_empty_spins_unrepaired`).
+the zero duration on `ErrQueueEmpty` and `fetchAndReschedule` returning `nil` for an empty `Pop()` spin on such queues
+(`C15_spurious_empty_spins_unrepaired`, `C15_empty_pop_spins_unrepaired`); returning every empty `Pop()` as an error
+(78e46a3) makes an honestly empty queue be polled for ever (`C15_empty_queue_keeps_polling`).
 
 Not proved here: absence of panics and deadlocks of the real code and wall-clock latencies (harness, observed).
 -/
@@ -47,7 +50,9 @@ def shape : Shape :=
     { onSizeErr := armOf a1, backoff := bo, onBackoff := armOf a2, onEmpty := armOf a3, onDefault := armOf a4,
       headErr := armOf headErrReturns, headEmpty := if headPositive then armOf headEmptyReturns else .other,
       stateFromTick := stateFromTick && execReturnsFetchErr, popErrReturned := popErrReturned,
-      popEmptyNil := popEmptyNil, pushErrReturned := pushErrReturned }
+      popEmpty := if popEmptyReturned && popEmptyUnlessSizeZero then .unlessSizeZero
+        else if popEmptyReturned then .returned else .nil,
+      pushErrReturned := pushErrReturned }
   match loopCases with
   | [("err != nil", a1), ("time.Now().Before(retryAt)", a2), ("queueSize == 0", a3), ("default", a4)] =>
     common a1 .deadline a2 a3 a4
@@ -137,7 +142,7 @@ theorem C15_backoff (S : Shape) (hS : WF S) (c : Cfg) (trig : Trig) (st0 : BStat
     one stored job whose fire time `f` has arrived, `Pop()` fails -/
 def spinIn (f now : Int) : In :=
   { size := some 1, now1 := now, head := .ok f, now2 := now, tArm := now, interrupted := false, tickAt := now,
-    pop := .err, nowVal := now, pushOk := true, nowErr := now }
+    pop := .err, size2 := some 1, nowVal := now, pushOk := true, nowErr := now }
 
 /-- Negative control: the loop without back-off state (the code before the repairs) spins. With a due head and a
     failing `Pop()`, any number `n` of consecutive iterations can happen at one and the same instant — the input is
@@ -193,77 +198,81 @@ theorem C15_interrupts_postpone_recovery (S : Shape) (c : Cfg) (trig : Trig) (in
     · exact ⟨harm, hi.2.1⟩
     · exact ih'.2 o ho
 
-/-! ## A queue that reports a size but has no head -/
+/-! ## A queue that reports a size (and a head) but has nothing to pop -/
 
-/-- For a queue whose `Size()` says non-empty while `Head()` and `Pop()` answer `ErrQueueEmpty` (a custom queue may
-    well do that: a size that is an estimate, entries that are not visible yet), outside the back-off window and in
-    every well-timed run: the back-off state is never touched, nothing is dispatched, every iteration arms
-    `RetryInterval`, and an iteration whose wait is not ended by an interrupt lasts at least `RetryInterval`: the
-    next iteration arms its timer at least `RetryInterval` after this one did. -/
+/-- In every well-timed run, whatever the inputs: after a tick whose `Pop()` answered `ErrQueueEmpty` while the queue,
+    asked again under the queue lock, still claimed to hold jobs or could not say (`size2 ≠ some 0`), read off the
+    clock at `ik.nowErr`, no later iteration ticks — and so no `Pop()` is attempted — before
+    `ik.nowErr + RetryInterval`. `fetchAndReschedule` returns such an empty `Pop()` like any other failed `Pop()`, so
+    the loop's back-off applies; this covers a queue with a size and a due head but nothing to pop (another node of a
+    clustered queue claimed the head) as well as a queue with a size and no head at all.
+    (Not covered, and not true: a queue whose `Size()` alternates between non-zero at the top of the loop and zero
+    inside `fetchAndReschedule` while its due head cannot be popped.) -/
+theorem C15_no_spin_on_empty_pop (S : Shape) (hS : WF S) (c : Cfg) (trig : Trig) (st0 : BState) (prev : Int)
+    (ins : List In) (hwt : WellTimed S c trig st0 prev ins) (k : Nat) (ik : In) (hik : ins[k]? = some ik)
+    (hni : ik.interrupted = false) (hpop : ik.pop = .empty) (hsz : ik.size2 ≠ some 0) :
+    ∀ j ij, k < j → ins[j]? = some ij → ij.interrupted = false → ik.nowErr + c.R ≤ ij.tickAt :=
+  fun j ij hkj hij hnj =>
+    backoff_after S hS c trig st0 prev ins hwt k ik hik hni (fetch_popEmpty S hS c trig ik hpop hsz) j ij hkj hij hnj
+
+/-- For a queue whose `Size()` says non-empty (every time it is asked) while `Head()` and `Pop()` answer
+    `ErrQueueEmpty`, in every well-timed
+    run: nothing is dispatched, any two ticks are at least `RetryInterval` apart, and an iteration outside the
+    back-off window arms `RetryInterval` (so the first tick, too, comes `RetryInterval` after its timer was armed,
+    unless an interrupt ends the wait). -/
 theorem C15_no_spin_on_spurious_empty (S : Shape) (hS : WF S) (c : Cfg) (trig : Trig) (st0 : BState) (prev : Int)
-    (ins : List In) (hall : ∀ i ∈ ins, SpuriousEmpty i ∧ inBackoff S st0 i.now1 = false)
-    (hwt : WellTimed S c trig st0 prev ins) :
-    (runLoop S c trig st0 ins).2 = st0 ∧
-    ∀ (k : Nat) (ik : In) (ok : Out), ins[k]? = some ik → (runLoop S c trig st0 ins).1[k]? = some ok →
-      ok.armed = c.R ∧ ok.dispatched = none ∧
-      (ik.interrupted = false → ik.tArm + c.R ≤ ik.tickAt ∧
-        ∀ ik1, ins[k + 1]? = some ik1 → ik.tArm + c.R ≤ ik1.tArm) := by
-  induction ins generalizing prev with
-  | nil => simp [runLoop]
-  | cons i is ih =>
-    obtain ⟨w1, w2, w3, w4, w5, w6, w7, wrest⟩ := hwt
-    obtain ⟨hsp, hnb⟩ := hall i (by simp)
-    obtain ⟨ha, hd, hst⟩ := iter_spurious S hS c trig st0 i hsp hnb
-    rw [hst] at wrest
-    obtain ⟨ih1, ih2⟩ := ih i.nowErr (fun x hx => hall x (by simp [hx])) wrest
-    simp only [runLoop, hst]
-    refine ⟨ih1, ?_⟩
-    intro k ik ok hik hok
-    cases k with
-    | zero =>
-      have hik' : i = ik := by simpa using hik
-      have hok' : iter S c trig st0 i = ok := by simpa using hok
-      subst hik'; subst hok'
-      refine ⟨ha, hd, ?_⟩
-      intro hni
-      have h5 := w5 hni
-      rw [ha] at h5
-      refine ⟨h5, ?_⟩
-      intro ik1 hik1
-      cases is with
-      | nil => simp at hik1
-      | cons i1 is1 =>
-        have : i1 = ik1 := by simpa using hik1
-        subst this
-        obtain ⟨v1, v2, v3, -⟩ := wrest
-        omega
-    | succ k =>
-      simp only [List.getElem?_cons_succ] at hik hok
-      exact ih2 k ik ok hik hok
+    (ins : List In) (hall : ∀ i ∈ ins, SpuriousEmpty i) (hwt : WellTimed S c trig st0 prev ins) :
+    (∀ o ∈ (runLoop S c trig st0 ins).1, o.dispatched = none) ∧
+    (∀ (k j : Nat) (ik ij : In), k < j → ins[k]? = some ik → ins[j]? = some ij → ik.interrupted = false →
+      ij.interrupted = false → ik.nowErr + c.R ≤ ij.tickAt) ∧
+    (∀ (st : BState) (i : In), i ∈ ins → inBackoff S st i.now1 = false →
+      (iter S c trig st i).armed = c.R ∧ (i.interrupted = false → i.tArm + (iter S c trig st i).armed ≤ i.tickAt →
+        i.tArm + c.R ≤ i.tickAt)) := by
+  refine ⟨?_, ?_, ?_⟩
+  · intro o ho
+    obtain ⟨k, hk, hok⟩ := List.mem_iff_getElem.mp ho
+    have hlen : (runLoop S c trig st0 ins).1.length = ins.length := by
+      clear hall hwt ho hk hok
+      induction ins generalizing st0 with
+      | nil => simp [runLoop]
+      | cons i is ih => simp [runLoop, ih]
+    have hik : ins[k]? = some ins[k] := by simp
+    have := (runLoop_tick_fields S c trig st0 ins k _ o hik (by simp [hk, hok])).2
+    rw [this, (fetch_popEmpty_nothing S c trig _ (hall _ (List.getElem_mem _)).2.2.1).1]
+    simp
+  · intro k j ik ij hkj hik hij hni hnj
+    have hmem : ik ∈ ins := List.mem_of_getElem? hik
+    exact C15_no_spin_on_empty_pop S hS c trig st0 prev ins hwt k ik hik hni (hall ik hmem).2.2.1 (hall ik hmem).2.2.2
+      j ij hkj hij hnj
+  · intro st i hi hnb
+    have := (iter_spurious S hS c trig st i (hall i hi) hnb).1
+    refine ⟨this, ?_⟩
+    intro _ h
+    rw [this] at h
+    exact h
 
-/-- the input of one iteration of the spinning scenario, everything happening at the instant `now` -/
+/-- the input of one iteration of a spinning scenario, everything happening at the instant `now` -/
 def spuriousIn (now : Int) : In :=
   { size := some 1, now1 := now, head := .empty, now2 := now, tArm := now, interrupted := false, tickAt := now,
-    pop := .empty, nowVal := now, pushOk := true, nowErr := now }
+    pop := .empty, size2 := some 1, nowVal := now, pushOk := true, nowErr := now }
 
-/-- Negative control: `calculateNextTick` as it was before its repair (zero duration on `ErrQueueEmpty`). On such a
-    queue neither back-off applies — `Head()`'s `ErrQueueEmpty` arms 0 and `Pop()`'s `ErrQueueEmpty` is not an error
-    for `fetchAndReschedule` — so any number `n` of iterations, three queue calls each, happen at one and the same
-    instant in a well-timed run. -/
+/-- Negative control: `calculateNextTick` and `fetchAndReschedule` as they were before their repairs (zero duration
+    on an empty `Head()`, `nil` on an empty `Pop()`). On a queue with a size but no head neither back-off applies, so
+    any number `n` of iterations, three queue calls each, happen at one and the same instant in a well-timed run. -/
 theorem C15_spurious_empty_spins_unrepaired (S : Shape) (hS : WF S) (c : Cfg) (trig : Trig) (now : Int) (n : Nat) :
-    (runLoop (zeroOnEmptyHead S) c trig {} (List.replicate n (spuriousIn now))).1 =
+    (runLoop (nilOnEmptyPop (zeroOnEmptyHead S)) c trig {} (List.replicate n (spuriousIn now))).1 =
       List.replicate n
         { armed := 0, calls := [(.size, .ok), (.head, .empty), (.pop, .empty)], dispatched := none, pushed := none,
           popped := none, armErr := false, tickErr := false, st := {} } ∧
-    WellTimed (zeroOnEmptyHead S) c trig {} now (List.replicate n (spuriousIn now)) ∧
-    SpuriousEmpty (spuriousIn now) ∧ inBackoff (zeroOnEmptyHead S) {} now = false := by
-  obtain ⟨-, h2, -, -, h5, -, -, h8, -, h10, -⟩ := hS
-  have hit : iter (zeroOnEmptyHead S) c trig {} (spuriousIn now) =
+    WellTimed (nilOnEmptyPop (zeroOnEmptyHead S)) c trig {} now (List.replicate n (spuriousIn now)) ∧
+    SpuriousEmpty (spuriousIn now) := by
+  obtain ⟨-, h2, -, -, h5, -, -, h8, -⟩ := hS
+  have hit : iter (nilOnEmptyPop (zeroOnEmptyHead S)) c trig {} (spuriousIn now) =
       { armed := 0, calls := [(.size, .ok), (.head, .empty), (.pop, .empty)], dispatched := none, pushed := none,
         popped := none, armErr := false, tickErr := false, st := {} } := by
-    simp [iter, zeroOnEmptyHead, spuriousIn, chooseArm, inBackoff, h2, h5, calcNextTick, fetch, Res.outcome,
-      afterTick, h8, h10]
-  refine ⟨?_, ?_, ⟨⟨0, rfl⟩, rfl, rfl⟩, by simp [inBackoff, zeroOnEmptyHead, h2]⟩
+    simp [iter, zeroOnEmptyHead, nilOnEmptyPop, spuriousIn, chooseArm, inBackoff, h2, h5, calcNextTick, fetch,
+      Res.outcome, afterTick, h8]
+  refine ⟨?_, ?_, ⟨⟨0, rfl⟩, rfl, rfl, by simp [spuriousIn]⟩⟩
   · induction n with
     | zero => simp [runLoop]
     | succ n ih => simp only [List.replicate_succ, runLoop, hit, ih]
@@ -272,6 +281,40 @@ theorem C15_spurious_empty_spins_unrepaired (S : Shape) (hS : WF S) (c : Cfg) (t
     | succ n ih =>
       simp only [List.replicate_succ, WellTimed, hit]
       refine ⟨?_, ?_, ?_, ?_, ?_, ?_, ?_, ih⟩ <;> simp [spuriousIn]
+
+/-- a due head `f ≤ now` that cannot be popped: `Pop()` answers `ErrQueueEmpty`; everything at the instant `now` -/
+def emptyPopIn (f now : Int) : In :=
+  { size := some 1, now1 := now, head := .ok f, now2 := now, tArm := now, interrupted := false, tickAt := now,
+    pop := .empty, size2 := some 1, nowVal := now, pushOk := true, nowErr := now }
+
+/-- Negative control: `fetchAndReschedule` as it was before its repair (`nil` when `Pop()` answers `ErrQueueEmpty`).
+    With a due head that cannot be popped, any number `n` of iterations (`Size()`, `Head()`, `Pop()`) happen at one
+    and the same instant in a well-timed run: the bound of `C15_no_spin_on_empty_pop` fails between the first two. -/
+theorem C15_empty_pop_spins_unrepaired (S : Shape) (hS : WF S) (c : Cfg) (trig : Trig) (f now : Int) (hdue : f ≤ now)
+    (n : Nat) :
+    (runLoop (nilOnEmptyPop S) c trig {} (List.replicate n (emptyPopIn f now))).1 =
+      List.replicate n
+        { armed := 0, calls := [(.size, .ok), (.head, .ok), (.pop, .empty)], dispatched := none, pushed := none,
+          popped := none, armErr := false, tickErr := false, st := {} } ∧
+    WellTimed (nilOnEmptyPop S) c trig {} now (List.replicate n (emptyPopIn f now)) ∧
+    (0 < c.R → (emptyPopIn f now).tickAt < (emptyPopIn f now).nowErr + c.R) := by
+  obtain ⟨-, h2, -, -, h5, -, -, h8, -⟩ := hS
+  have hnot : ¬ f > now := by omega
+  have hit : iter (nilOnEmptyPop S) c trig {} (emptyPopIn f now) =
+      { armed := 0, calls := [(.size, .ok), (.head, .ok), (.pop, .empty)], dispatched := none, pushed := none,
+        popped := none, armErr := false, tickErr := false, st := {} } := by
+    simp [iter, nilOnEmptyPop, emptyPopIn, chooseArm, inBackoff, h2, h5, calcNextTick, hnot, fetch, Res.outcome,
+      afterTick, h8]
+  refine ⟨?_, ?_, ?_⟩
+  · induction n with
+    | zero => simp [runLoop]
+    | succ n ih => simp only [List.replicate_succ, runLoop, hit, ih]
+  · induction n with
+    | zero => simp [WellTimed]
+    | succ n ih =>
+      simp only [List.replicate_succ, WellTimed, hit]
+      refine ⟨?_, ?_, ?_, ?_, ?_, ?_, ?_, ih⟩ <;> simp [emptyPopIn]
+  · intro hR; simp [emptyPopIn]; omega
 
 /-! ## API methods return the queue's error -/
 
@@ -331,7 +374,7 @@ theorem C15_dispatch_after_pop (S : Shape) (c : Cfg) (trig : Trig) (st : BState)
     unfold fetch
     cases hp : i.pop with
     | err => simp
-    | empty => simp
+    | empty => cases S.popEmpty <;> simp
     | ok e =>
       simp only
       cases hv : (validate c trig e i.nowVal).2 with
@@ -351,16 +394,18 @@ theorem C15_dispatch_after_pop (S : Shape) (c : Cfg) (trig : Trig) (st : BState)
           · intro e' he'; simp at he'; subst he'; simp
   · simp
 
-/-- the queue calls of one `fetchAndReschedule`: one `Pop()`, and at most one `Push()`, which only follows a
-    successful `Pop()` -/
+/-- the queue calls of one `fetchAndReschedule`: one `Pop()`; after an empty one possibly one `Size()`; after a
+    successful one at most one `Push()` -/
 theorem C15_one_push_per_pop (S : Shape) (c : Cfg) (trig : Trig) (i : In) :
     (fetch S c trig i).calls = [(.pop, .err)] ∨ (fetch S c trig i).calls = [(.pop, .empty)] ∨
+    (fetch S c trig i).calls = [(.pop, .empty), (.size, .ok)] ∨
+    (fetch S c trig i).calls = [(.pop, .empty), (.size, .err)] ∨
     (fetch S c trig i).calls = [(.pop, .ok)] ∨ (fetch S c trig i).calls = [(.pop, .ok), (.push, .ok)] ∨
     (fetch S c trig i).calls = [(.pop, .ok), (.push, .err)] := by
   unfold fetch
   cases i.pop with
   | err => simp
-  | empty => simp
+  | empty => cases S.popEmpty <;> simp; cases i.size2 <;> simp
   | ok e =>
     simp only
     cases (validate c trig e i.nowVal).2 with
@@ -424,11 +469,11 @@ theorem C15_deadline_not_postponed (S : Shape) (hS : WF S) (c : Cfg) (trig : Tri
       simp only [List.getElem?_cons_succ] at hik hok
       exact ih'.2 k ik ok hik hok
 
-/-- Once no queue call fails any more (any clock readings, any interrupts): the back-off state is never touched
-    again; the loop pops, dispatches and reschedules exactly what the loop without any back-off state does on the
-    same queue (same execution log, same stored entries); and if the plans all lie outside the back-off window
-    (their clock reading is at or after the deadline, or there is no deadline) the two loops coincide in every
-    output: armed durations, queue calls, dispatches. -/
+/-- Once no queue call fails any more (any clock readings, any interrupts, ticks on an honestly empty queue included):
+    the back-off state is never touched again; the loop pops, dispatches and reschedules exactly what the loop
+    without any back-off state does on the same queue (same execution log, same stored entries); and if the plans all
+    lie outside the back-off window (their clock reading is at or after the deadline, or there is no deadline) the two
+    loops coincide in every output: armed durations, queue calls, dispatches. -/
 theorem C15_recovers (S : Shape) (hS : WF S) (c : Cfg) (trig : Trig) (s : LState) (ps : List Plan)
     (hps : ∀ p ∈ ps, p.faultFree = true) :
     (runQ S c trig s ps).2.st = s.st ∧
@@ -452,6 +497,45 @@ theorem C15_recovers (S : Shape) (hS : WF S) (c : Cfg) (trig : Trig) (s : LState
     intro hall
     rw [h3 (hall p (by simp)), i4 (fun p' h => hall p' (by simp [h]))]
     simp
+
+/-- An honestly empty queue is not a failing queue: a tick whose `Pop()` answers `ErrQueueEmpty` and whose `Size()`,
+    asked under the queue lock, answers 0 (the last job was deleted or cleared after the timer was armed) leaves the
+    back-off state as it is — in particular it does not start a back-off — and dispatches nothing. A job scheduled
+    afterwards is therefore not held back (C05). -/
+theorem C15_honest_empty_pop (S : Shape) (hS : WF S) (c : Cfg) (trig : Trig) (st : BState) (i : In)
+    (hni : i.interrupted = false) (hpop : i.pop = .empty) (hsz : i.size2 = some 0) :
+    (iter S c trig st i).st = st ∧ (iter S c trig st i).dispatched = none ∧
+    (iter S c trig st i).popped = none ∧ (iter S c trig st i).tickErr = false := by
+  obtain ⟨e1, _, e3, e4, e5⟩ := iter_fields S c trig st i
+  obtain ⟨n1, n2, _, n4⟩ := fetch_popEmpty_nothing S c trig i hpop
+  rw [e1, e3, e4, e5, n1, n2, n4, fetch_popEmpty_honest S hS c trig i hpop hsz, afterTick_noErr S c st _ hS]
+  simp [hni]
+
+/-- Negative control (the behaviour of 78e46a3, which returned every empty `Pop()` as an error): once a tick happens
+    on an EMPTY queue, the queue is polled for ever. The back-off case of the `switch` precedes `queueSize == 0`, so
+    the loop waits for the deadline instead of sleeping on `maxTimerDuration`; the tick at the deadline is an empty
+    `Pop()`, which sets the next deadline. Fault-free inputs, nothing stored: every tick re-arms the back-off, and a
+    job scheduled meanwhile waits for the end of the window. -/
+theorem C15_empty_queue_keeps_polling (S : Shape) (hS : WF S) (c : Cfg) (trig : Trig) (st : BState) (p : Plan)
+    (hp : p.faultFree = true) (hni : p.interrupted = false) :
+    (iterQ (alwaysOnEmptyPop S) c trig ⟨st, []⟩ p).2 = ⟨{ st with retryAt := some (p.nowErr + c.R) }, []⟩ ∧
+    (∀ r : Int, p.now1 < r →
+      (iterQ (alwaysOnEmptyPop S) c trig ⟨{ st with retryAt := some r }, []⟩ p).1.armed = r - p.now2) := by
+  simp only [Plan.faultFree, Bool.and_eq_true, Bool.not_eq_eq_eq_not, Bool.not_true] at hp
+  obtain ⟨⟨⟨⟨hfs, _⟩, hpop⟩, _⟩, _⟩ := hp
+  have hpe : (inOf [] p).pop = .empty := by simp [inOf, hpop]
+  have hi : (inOf [] p).interrupted = false := by simp [inOf, hni]
+  obtain ⟨_, e2, e3, _, e5⟩ := iter_fields (alwaysOnEmptyPop S) c trig st (inOf [] p)
+  have hpp := (fetch_popEmpty_nothing (alwaysOnEmptyPop S) c trig (inOf [] p) hpe).2.1
+  have hret : (fetch (alwaysOnEmptyPop S) c trig (inOf [] p)).retErr = true := by
+    simp [fetch, hpe, alwaysOnEmptyPop]
+  refine ⟨?_, ?_⟩
+  · simp only [iterQ, qAfter, e3, e5, hi, hpp, hret, Bool.false_eq_true, ↓reduceIte]
+    simp [afterTick, alwaysOnEmptyPop, hS.2.2.2.2.2.2.2.1, hS.2.1, inOf]
+  · intro r hlt
+    simp only [iterQ]
+    rw [iter_armed]
+    simp [chooseArm, inBackoff, alwaysOnEmptyPop, inOf, hS.2.1, hS.2.2.1, hfs, hlt]
 
 /-! ## The facts of the current source -/
 
@@ -496,16 +580,22 @@ example : WellTimed Generated.Faults.shape cfg0 trig0 {} 0 (plans0.foldl
       (acc.1 ++ [inOf acc.2 p], (iterQ Generated.Faults.shape cfg0 trig0 ⟨{}, acc.2⟩ p).2.q)) ([], [⟨1, 5⟩])).1 := by
   decide
 
-/-- the hypotheses of `C15_no_spin_on_spurious_empty` are satisfiable: two iterations, 50 apart -/
+/-- the hypotheses of `C15_no_spin_on_spurious_empty` / `C15_no_spin_on_empty_pop` are satisfiable: two ticks, 50 apart -/
 example :
-    let ins : List In := [{ spuriousIn 0 with tickAt := 50, nowVal := 50, nowErr := 50 }, { spuriousIn 50 with tickAt := 100, nowVal := 100, nowErr := 100 }]
-    (∀ i ∈ ins, SpuriousEmpty i ∧ inBackoff Generated.Faults.shape {} i.now1 = false) ∧
-    WellTimed Generated.Faults.shape cfg0 trig0 {} 0 ins ∧
-    (runLoop Generated.Faults.shape cfg0 trig0 {} ins).1.map (·.armed) = [50, 50] := by
-  refine ⟨?_, by decide, by decide⟩
+    let ins : List In := [{ spuriousIn 0 with tickAt := 50, nowVal := 50, nowErr := 50 },
+      { spuriousIn 50 with tickAt := 100, nowVal := 100, nowErr := 100 }]
+    (∀ i ∈ ins, SpuriousEmpty i) ∧ WellTimed Generated.Faults.shape cfg0 trig0 {} 0 ins ∧
+    (runLoop Generated.Faults.shape cfg0 trig0 {} ins).1.map (·.armed) = [50, 50] ∧
+    (runLoop Generated.Faults.shape cfg0 trig0 {} ins).2 = { retryAt := some 150 } := by
+  refine ⟨?_, by decide, by decide, by decide⟩
   intro i hi
   simp only [List.mem_cons, List.not_mem_nil, or_false] at hi
-  rcases hi with rfl | rfl <;> exact ⟨⟨⟨0, rfl⟩, rfl, rfl⟩, by decide⟩
+  rcases hi with rfl | rfl <;> exact ⟨⟨0, rfl⟩, rfl, rfl, by decide⟩
+
+/-- a tick on an honestly empty queue in the middle of a back-off: the state is not touched (cf. 78e46a3: 110) -/
+example : (iterQ Generated.Faults.shape cfg0 trig0 ⟨{ retryAt := some 60 }, []⟩ (Plan.at 60)).2 = ⟨{ retryAt := some 60 }, []⟩ ∧
+    (iterQ (alwaysOnEmptyPop Generated.Faults.shape) cfg0 trig0 ⟨{ retryAt := some 60 }, []⟩ (Plan.at 60)).2 =
+      ⟨{ retryAt := some 110 }, []⟩ := by decide
 
 /-- the hypotheses of `C15_no_double_fire` are satisfiable and the log is non-empty -/
 example : (∀ k p t, trig0 k p = some t → p < t) ∧ (([⟨1, 5⟩, ⟨2, 7⟩] : Queue).map (·.key)).Nodup ∧
